@@ -125,7 +125,18 @@ SHARED = {"client": bytearray(), "server": bytearray()}
 
 def _recv_shared(role: str, s: t.Any, part: bytes) -> t.Any:
     buf = SHARED[role]
-    buf[:] = part
+    try:
+        buf[:] = part
+    except BufferError:
+        # something still holds a view of the application's buffer (typically an exception's traceback kept alive by a
+        # reference cycle until the collector runs): that is the application's inconvenience, not a session's result
+        import gc
+
+        gc.collect()
+        try:
+            buf[:] = part
+        except BufferError:
+            buf = SHARED[role] = bytearray(part)
     r = s.receive(buf)
     if bytes(buf) != part:
         raise AssertionError(f"receive modified the caller's input buffer: {bytes(buf).hex()[:40]}")
